@@ -12,7 +12,7 @@ def test_codec():
     from decimal import Decimal
 
     from mc.codec import dec, enc
-    for v in [1, 2**70, 10**400, -0.0, (1, (2,)), {1: 2, "a": [b"x"]}, {1, 2}, Decimal("1"), None, True]:
+    for v in [1, 2**70, 10**400, 10**5000, -(10**5000), 10**5000 + 7, -0.0, (1, (2,)), {1: 2, "a": [b"x"]}, {1, 2}, Decimal("1"), None, True]:
         j = enc(v)
         json.dumps(j)
         d = dec(j)
